@@ -116,6 +116,54 @@ CHECKS = {
             "must not end within 2..4 epochs, only examples of the split, "
             "unshuffled periodic with the one-pass sequence, Rust epochs are "
             "permutations.", "Prefixes only (stream is infinite).", "5 C19"),
+    "C07": ("fault_enumeration",
+            "fault injection: damaged/missing shard x interface x shuffle x "
+            "parallelism x repeat cells, decoder-rejection ground truth, "
+            "watchdog-guarded forks",
+            "Cells of the fault matrix (quick: Hypothesis-sampled, thorough: "
+            "the whole matrix enumerated); a cell carries an obligation only "
+            "if the file is missing or the interface's own single-shard "
+            "decoder rejects it; the pass must raise (no silent skip, no "
+            "hang; hang only after a second run with doubled watchdog).",
+            "Watchdog 90 s/180 s vs sub-second cells; repeat=True cells "
+            "consume 40 epochs before 'silent skip' is concluded.", "5 C07"),
+    "C11": ("exploration",
+            "Hypothesis write sequences with literal / shared-mutated "
+            "metadata objects vs call-time deep copies; filter-by-metadata "
+            "round trip",
+            "Generated sequences incl. one shared dict mutated in place "
+            "(top-level and nested) between writes, A,B,A alternations, "
+            "size boundaries, two splits, 1-2 sessions; the shard holding "
+            "each labelled example must record the value as it was at call "
+            "time and filtering by it must return exactly those examples.",
+            "JSON-representable metadata; unlabelled writes carry no "
+            "obligation.", "5 C11"),
+    "C13": ("exploration",
+            "deterministic scheduler shim owning the interleaving at "
+            "queue-operation granularity: Hypothesis-generated schedules, "
+            "preemption-bounded exhaustive DFS for tiny configurations, "
+            "real-thread cross-check",
+            "Scenarios complete / abandon@k / fail@j / twice / "
+            "abandon-then-reuse under generated schedules of T+1 threads; "
+            "deadlock and thread leaks detected without a clock; timed "
+            "get/put may time out whenever they cannot proceed. DFS: all "
+            "schedules with <=1 (quick) / <=2 (thorough) preemptions for "
+            "T<=2,n<=3 (exhaustive only within that bound and only for "
+            "configurations labelled dfs-complete).",
+            "Atomicity between queue operations of one thread; other "
+            "synchronisation primitives are refused (inconclusive) and left "
+            "to the real-thread stage.", "5 C13"),
+    "C18": ("exploration",
+            "Hypothesis write sequences with injected invalid values "
+            "(7 violation kinds x attribute x position) vs reject-no-trace / "
+            "accept-readable oracles over all readers",
+            "Supported and unsupported declarations, bad writes caught by "
+            "the caller inside the filler context, later valid writes must "
+            "be accepted, session must close, every interface must read "
+            "exactly the accepted ids with declared shapes; exactness walk "
+            "excludes rejected writes.",
+            "Orphan empty shard files and extra dict keys are outside the "
+            "statement.", "5 C18"),
 }
 
 NOT_YET = {}
